@@ -31,6 +31,7 @@ PLAIN = [
     # module, constants, invariant that must be violated
     ("Uri", {"Defects": '{"latin1_unreserved"}', "Tier": '"quick"', "Export": "FALSE"}, "KeyExact", None),
     ("Uri", {"Defects": '{"strip_brackets"}', "Tier": '"quick"', "Export": "FALSE"}, "KeyExact", None),
+    ("Uri", {"Defects": '{"rewrite_malformed"}', "Tier": '"quick"', "Export": "FALSE"}, "KeyExact", None),
     ("FsLayout", {"DirMarker": "FALSE", "Threshold": "1", "Frag": "2", "MaxLen": "4"}, "NoFailure", "Small"),
     ("FsAtomic", {"Writers": "{1, 2}", "Readers": "{1}", "Deleters": "{1}", "Vals": "{1, 2}", "Chunks": "2", "WriteMode": '"inplace"', "TmpNames": '"unique"'}, "NoTornRead", None),
     ("FsAtomic", {"Writers": "{1, 2}", "Readers": "{1}", "Deleters": "{1}", "Vals": "{1, 2}", "Chunks": "2", "WriteMode": '"rename"', "TmpNames": '"shared"'}, "NoTornRead", None),
@@ -43,7 +44,7 @@ REVERTS = [
     ("background revalidation works on its own copy", ["C16", "C08"]), ("a failed origin call during validation", ["C10"]),
     ("stale-if-error is taken from", ["C13"]), ("a 304 freshens the stored entry", ["C08"]),
     ("a 304 received for the client's own", ["C06"]), ("every method that is not registered as safe", ["C07"]),
-    ("URL keys keep escaped", ["C03"]), ("the variant hash delimits", ["C04"]), ("null elements in a stored index", ["C10"]),
+    ("URL keys keep escaped", ["C03"]), ("a malformed percent escape", ["C03"]), ("the variant hash delimits", ["C04"]), ("null elements in a stored index", ["C10"]),
     ("storing a response replaces every older index reference", ["C19"]), ("fscache writes a value to a temporary file", ["C15"]),
     ("directory levels of fragmented", ["C14"]), ("fscache can store a value under the empty key", ["C14"]),
     ("the TE field is removed", ["C05"]), ("connection-level fields written by the entry serialisation", ["C05"]),
